@@ -595,6 +595,20 @@ pub fn parse_compound_variable_index(
                 span,
             )))
         }
+        //the grammar reads x_1.5 (the name the compiler itself writes for x_{1.5})
+        Rule::float => {
+            let span = InputSpan::from_pair(&compound_variable_index);
+            match compound_variable_index.as_str().parse::<f64>() {
+                Ok(value) => Ok(PreExp::Primitive(Spanned::new(
+                    Primitive::Number(value),
+                    span,
+                ))),
+                Err(_) => err_unexpected_token!(
+                    "Expected number but got: {}",
+                    compound_variable_index
+                ),
+            }
+        }
         Rule::tagged_exp => parse_exp(compound_variable_index),
         _ => err_unexpected_token!(
             "Expected compound variable index but got: {}",
